@@ -82,6 +82,15 @@ CHECKS["C18"] = {
     "note": "List-kind upgrades are not claimed to canonicalise identically. Source padding is zero because values come from the builder.",
 }
 
+CHECKS["C02"] = {
+    "engine": "tlc",
+    "level": "model_checking",
+    "design_ref": "DESIGN.md section 4 C02, Appendix L",
+    "technique": "TLA+ models of the traversal budget (load/CAS steps of concurrent readers; Apalache inductive invariant) and of access paths with depth accounting; spec->code: TLC-enumerated interleavings forced on the real canRead through a yield gate, TLC-enumerated walks replayed at every boundary budget and depth limit with three-valued expectations",
+    "text": "(i) ReadLimit: all interleavings of 3 readers x 2 reads conserve the budget (and the plain-store variant violates it: non-vacuity control); every terminated interleaving of ReadLimitSched (2 readers, 2-3 reads, sizes 0-24) is forced on the real code through the verif yield point between load and CAS, comparing each read's result and the remaining budget. (ii) LimitWalk: every access path of <= 4-6 steps over ~1.8k-10k EncGen messages (cyclic, aliasing) mixing Struct.Ptr, PointerList.At and List.Struct, for D in 1..5 and every boundary T: a dereference must fail when the cumulative size handed out would exceed T or the path already holds D dereferences, must succeed when levels < D and the budget fits, and the budget must really decrease by the size handed out (verif getter). (iii) recursive consumers on all cyclic/deep messages with small T, D terminate without fatal error.",
+    "note": "Charges are lower bounds a correct accounting must make (bit lists: ceil(n/8) bytes; the library charges more). Depth oracle is three-valued between 'derefs' and 'levels' so that refactorings of the accounting do not raise alarms.",
+}
+
 NOT_APPLICABLE = {
     "C%02d" % i: "check not built yet in this session (planned, see DESIGN.md section 9); not claimed until its TLA+ spec and conformance harness exist" for i in range(1, 21)
 }
